@@ -6,7 +6,11 @@ from .c05 import corpus_requests
 
 RULE = ("`fstw <type> <idx=value,...>`: the callback sequence of one signal drives the real fst::SignalWriter (hook) — real code (release and "
         "debug-assertion profile) vs Lean Fst model vs canon of the history. Quick: EVERY order of 2/4/9-state values (all sequences of kinds of length <= 4) x widths 1..24 "
-        "(exhaustive), random histories to width 300 with redundant values, reals, strings. non-trivial = at least one change; distinct = distinct (request, reply)")
+        "(exhaustive), random histories to width 300 with redundant values, reals, strings. "
+        "`fstfile <design> <exponent> <file>`: random designs written as whole FST files by gen/fst_writer.py (scopes and variables with kinds / directions / ranges / alias handles, "
+        "enum tables + references and GHDL-style VHDL type attributes, 1..n value-change blocks, snapshot as frame or as records, packed / ASCII / 1-bit record forms, raw / zlib "
+        "streams, every timescale exponent -15..0) through the real loader; full dump vs the Lean file-level model (callbacks -> SignalWriter model -> pointer-level builder) vs the "
+        "design's denotation. `pairfile`: corpus VCD/FST pairs. non-trivial = at least one change; distinct = distinct (request, reply)")
 
 CH = {0: "01", 1: "01xz", 2: "01xzhuwl-"}
 
